@@ -46,6 +46,7 @@ typedef struct {
 	KSI_AsyncHandle *h;
 	unsigned seed;
 	int filler, accepted, completed, completion_state, nfwd, nnotice;
+	uint64_t level;               /* the level the caller gave: every copy sent to an endpoint has to carry it */
 	time_t add_time;
 	ssub_t s[MAXE];
 } sreq_t;
@@ -115,6 +116,7 @@ static void a_after_send(sn_conn *c) {
 					hit = 1;
 					if (!W.req[k].s[e].forwarded) HF("forwarded-to-full-endpoint", "request #%d reached endpoint %d although its cache (size %d) was occupied at submission", k, e, W.cache[e]);
 					W.req[k].s[e].sent = 1; W.req[k].s[e].id = r.req_id; W.req[k].s[e].sent_time = sn_now;
+					if ((r.has_level ? r.level : 0) != W.req[k].level) HF("request-level-changed", "the copy of request #%d sent to endpoint %d carries level %llu, the caller gave %llu", k, e, (unsigned long long)(r.has_level ? r.level : 0), (unsigned long long)W.req[k].level);
 					break;
 				}
 			}
@@ -183,7 +185,7 @@ static void a_add(int filler) {
 	if (k >= MAXR) vf_harness_error("too many requests");
 	hl = ref_fake_imprint(RH_SHA256, seed, hh);
 	KSI_DataHash_fromImprint(W.ctx, hh, hl, &dh);
-	if (KSI_AsyncSigningHandle_new(W.ctx, dh, 0, &h) != KSI_OK) vf_harness_error("handle new");
+	if (KSI_AsyncSigningHandle_new(W.ctx, dh, (KSI_uint64_t)(1 + (k & 1) * 2), &h) != KSI_OK) vf_harness_error("handle new");
 	for (e = 0; e < W.nE; e++) { acc[e] = W.cache[e] > 1 || W.occ[e] < 0; any |= acc[e]; all &= acc[e]; }
 	res = KSI_AsyncService_addRequest(W.ha, h);
 	vf_count("impl_calls", 1);
@@ -191,7 +193,7 @@ static void a_add(int filler) {
 		sreq_t *r = &W.req[k];
 		if (!any) HF("accepted-by-nobody", "addRequest reported success although every endpoint's request cache was full");
 		memset(r, 0, sizeof *r);
-		r->h = h; r->seed = seed; r->filler = filler; r->accepted = 1; r->add_time = sn_now;
+		r->h = h; r->seed = seed; r->filler = filler; r->accepted = 1; r->add_time = sn_now; r->level = (uint64_t)(1 + (k & 1) * 2);
 		for (e = 0; e < W.nE; e++) if (acc[e]) { r->s[e].forwarded = 1; r->nfwd++; if (W.cache[e] == 1) W.occ[e] = k; }
 		W.nreq++;
 		vf_outcome(all ? "add:forwarded-to-all" : "add:forwarded-to-some");
@@ -344,7 +346,8 @@ static int a_apply(int ev) {
 					unsigned char hh[RH_MAX_IMPRINT];
 					size_t hl = ref_fake_imprint(RH_SHA256, W.req[kk].seed, hh);
 					/* the aggregation time identifies the endpoint whose reply ends up in the signature */
-					rp_aggregate(&sig, hh, hl, 0, 0, 1, T0 + (uint64_t)e, T0 + 86400);
+					rp_aggregate(&sig, hh, hl, W.req[kk].level, 0, 1, T0 + (uint64_t)e, T0 + 86400);
+					sig.ch[0].links[0].level_corr -= W.req[kk].level;      /* reported relative to the requested level */
 					rp_sig_body(&sig, &body);
 				}
 				rp_aggr_resp_payload(&payload, 2, W.req[kk].s[e].id, 1, W.out[e] == O_STATUS ? 0x0101 : 0, W.out[e] == O_STATUS ? "refused" : NULL, body.p, body.n);
